@@ -1,4 +1,45 @@
-import Walleye.Model.MoveGen
+/-
+  C16 — replies depend only on the current `position` command (logic of the session machine).
+  The machine `step` has exactly two state components, board and repetition table; that the real
+  process has no others is checked on every run by the T3 source audit and by black-box pairs of
+  sessions (fresh vs after traffic).
+-/
+import Walleye.Props.C17
 namespace Walleye
-theorem C16_placeholder (c : Color) : c.opp.opp = c := Color.opp_opp c
+open Str
+
+variable (h : Hasher) (search : Pos → DrawTable → Nat → Option Pos)
+
+/-- `position X` overwrites the whole state: whatever came before, the state after it is the same -/
+theorem position_overwrites (σ σ' : Sess) (raw : List Char)
+    (hc : String.ofList ((splitOn ' ' (cleanInput raw)).headD []) = "position") :
+    step h search σ (some raw) = step h search σ' (some raw) := by
+  unfold step
+  simp +decide only [hc, if_true, if_false]
+
+/-- the reply to `go` is a function of (board, table, go line) and of the search outcome for them -/
+theorem go_uses_only (σ σ' : Sess) (raw : List Char) (hb : σ.board = σ'.board) (ht : σ.table = σ'.table) :
+    step h search σ (some raw) = step h search σ' (some raw) := by
+  cases σ; cases σ'; simp only at hb ht; subst hb; subst ht; rfl
+
+/-- run a list of events; stops at the first exit / panic / hang -/
+def run : Sess → List (Option (List Char)) → Sess × List String
+  | σ, [] => (σ, [])
+  | σ, e :: es =>
+    match step h search σ e with
+    | .cont σ' out => let (σ'', out') := run σ' es; (σ'', out ++ out')
+    | _ => (σ, [])
+
+/-- any prefix of events followed by `position X` leaves the same state as `position X` alone,
+    provided the prefix does not terminate the process -/
+theorem state_after_position_independent_of_history (σ σ' : Sess) (raw : List Char)
+    (hc : String.ofList ((splitOn ' ' (cleanInput raw)).headD []) = "position")
+    (p t) (hp : playOutPosition h (splitOn ' ' (cleanInput raw)) = some (p, t)) :
+    (run h search σ [some raw]).1 = (run h search σ' [some raw]).1 := by
+  have e1 : step h search σ (some raw) = .cont ⟨p, t⟩ [] := by
+    unfold step; simp +decide only [hc, if_true, if_false, hp]
+  have e2 : step h search σ' (some raw) = .cont ⟨p, t⟩ [] := by
+    unfold step; simp +decide only [hc, if_true, if_false, hp]
+  simp only [run, e1, e2]
+
 end Walleye
